@@ -1,11 +1,11 @@
 """C15 tables regenerated from /repo:
 
-gen/CacheKeys.v  - every memoisation site in the brush crates: `#[cached::macros::cached(...)]`
+gen/C15CacheKeys.v  - every memoisation site in the brush crates: `#[cached::macros::cached(...)]`
                    functions (parameter list, `key` type, identifiers of the `convert` expression,
                    size) and the hand-written REGEX_CACHE of brush-core/src/regex.rs; the
                    definitions of the option structs that occur in keys (derive list, fields,
                    hand-written Eq/Hash impls); explicit process-global state of brush-parser.
-gen/IncompleteTables.v - TokenizerError variants, the `is_incomplete` variant list, the match arms of
+gen/C15Incomplete.v - TokenizerError variants, the `is_incomplete` variant list, the match arms of
                    `needs_more_input_locked`, the literals of `ends_with_line_continuation`,
                    the line counting expression of `execute_line`.
 
@@ -421,7 +421,7 @@ def gen_cache_keys():
     out.append("")
     out.append("(** explicit process-global state in brush-parser/src, shell/parsing.rs, completeness.rs *)")
     out.append("Definition parser_globals : list string := %s." % _cl([_cs(g) for g in globs]))
-    return regen.write_if_changed("CacheKeys.v", "\n".join(out) + "\n")
+    return regen.write_if_changed("C15CacheKeys.v", "\n".join(out) + "\n")
 
 
 # ------------------------------------------------------------------ TokTables
@@ -576,8 +576,8 @@ def gen_tok_tables():
            "Definition cont_variant : string := %s." % _cs(cvar), "",
            "(** execute_line: line_count = read_result.lines().count().max(k) *)",
            "Definition line_count_floor : nat := %s." % lm.group(1)]
-    return regen.write_if_changed("IncompleteTables.v", "\n".join(out) + "\n")
+    return regen.write_if_changed("C15Incomplete.v", "\n".join(out) + "\n")
 
 
-EXTRACTORS = {"cache_keys": gen_cache_keys, "incomplete_tables": gen_tok_tables}
-USES = {"C15": ["cache_keys", "incomplete_tables"]}
+EXTRACTORS = {"c15_cache": gen_cache_keys, "c15_incomplete": gen_tok_tables}
+USES = {"C15": ["c15_cache", "c15_incomplete"]}
